@@ -525,7 +525,7 @@ def write_replay(pid, part, v):
     body = {'property': pid, 'part': part.name, 'clause': v['clause'], 'witness': v['witness'],
             'detail': v.get('detail'), 'formula': v.get('formula'), 'values': v.get('values', {}),
             'choices': v.get('choices', {}), 'choice_order': v.get('choice_order'), 'bounds': part.bounds,
-            'repo': repo_id(), 'crosshair_call': v.get('crosshair_call')}
+            'repo': repo_id(), 'crosshair_call': v.get('crosshair_call'), 'crosshair_module': v.get('crosshair_module')}
     h = hashlib.sha1(json.dumps(body, sort_keys=True, default=str).encode()).hexdigest()[:10]
     path = os.path.join(REPLAY_DIR, '%s-%s.json' % (pid, h))
     json.dump(body, open(path, 'w'), indent=1, default=str)
@@ -596,6 +596,7 @@ def run_property(mod, argv=None):
     functions = {}
     vars_kind = {}
     closed_all = True
+    inconclusive_conditions = []
 
     for part in parts:
         budget = args.budget or part.budget_s or (75 if tier == 'quick' else 600)
@@ -645,7 +646,13 @@ def run_property(mod, argv=None):
                 if ('%s: %s' % (part.name, e)) not in harness_errors and part.kind == 'crosshair':
                     harness_errors.append('%s: %s' % (part.name, e))
         if not rep.get('closed', True):
-            closed_all = False
+            if rep.get('inconclusive_is_not_failure') and not rep.get('errors'):
+                # CrossHair conditions that ran out of budget: not discharged, listed in the evidence, not an alarm
+                for c in rep.get('conditions_inconclusive', []):
+                    print('    INCONCLUSIVE-CONDITION %s %s' % (part.name, c))
+                inconclusive_conditions.extend('%s: %s' % (part.name, c) for c in rep.get('conditions_inconclusive', []))
+            else:
+                closed_all = False
 
         # triage violations of this part
         cc = {}
@@ -690,7 +697,7 @@ def run_property(mod, argv=None):
         part, v = hit['part'], hit['example']
         if part.kind == 'crosshair':
             from harness import xh
-            ok, info = xh.replay({'crosshair_call': v.get('crosshair_call'), 'part': part.name, 'clause': v['clause']})
+            ok, info = xh.replay({'crosshair_call': v.get('crosshair_call'), 'crosshair_module': v.get('crosshair_module'), 'part': part.name, 'clause': v['clause']})
         else:
             ok, info, _ = replay_isolated(part, v)
         hit['reproduced'] = ok
@@ -719,7 +726,8 @@ def run_property(mod, argv=None):
                     'inputs/histories); non-trivial = the path was not cut by a harness assumption and reached its assertions; '
                     'CrossHair parts count one evaluation per condition.',
             'samples': samples[:8] or [{'note': 'no sample recorded'}],
-            'exhaustive': bool(closed_all and not harness_errors),
+            'exhaustive': bool(closed_all and not harness_errors and not inconclusive_conditions),
+            'crosshair_conditions_not_discharged': inconclusive_conditions,
             'tree_closed': bool(closed_all),
             'solver_queries': total['queries'],
             'solver_seconds': round(total['solver_s'], 2),
